@@ -7,6 +7,7 @@ import (
 	"context"
 	"crypto/sha256"
 	"fmt"
+	"github.com/decred/dcrd/dcrec/secp256k1/v4/ecdsa"
 	"sort"
 	"strings"
 	"testing"
@@ -536,6 +537,12 @@ func TestC05Handle(t *testing.T) {
 			vstat.Case("", false, "raw_unparseable")
 			return
 		}
+		if (kind < 9 || field == "raw") && authenticVariant(m, b.msg, n) {
+			// every part still carries the unaltered signed content of a part of the valid message and a
+			// signature that is (another encoding of) a valid signature of the member it names: e.g. the
+			// recovery byte 1 written as 28, or whole justifications dropped. No signed field was altered.
+			rt.Skip("altered bytes are another valid form of the same signed parts")
+		}
 		var herr error
 		func() {
 			defer func() {
@@ -661,6 +668,90 @@ func partsSubset(a, b *pbv1.QBFTConsensusMsg) bool {
 		if !found {
 			return false
 		}
+	}
+	usedV := make([]bool, len(b.GetValues()))
+	for _, v := range a.GetValues() {
+		found := false
+		for i, o := range b.GetValues() {
+			if !usedV[i] && v != nil && proto.Equal(v, o) {
+				usedV[i], found = true, true
+				break
+			}
+		}
+		if !found {
+			return false
+		}
+	}
+	return true
+}
+
+// signedContent is a part without its signature, deterministically encoded.
+func signedContent(p *pbv1.QBFTMsg) string {
+	c, ok := proto.Clone(p).(*pbv1.QBFTMsg)
+	if !ok || c == nil {
+		return "NIL"
+	}
+	c.Signature = nil
+	b, err := proto.MarshalOptions{Deterministic: true}.Marshal(c)
+	if err != nil {
+		return "ERR"
+	}
+	return string(b)
+}
+
+// validSigIndependent verifies a part's signature for the member it names with the secp256k1 library
+// directly (not through the repository's k1util), accepting both encodings of the recovery byte.
+func validSigIndependent(p *pbv1.QBFTMsg, n int) bool {
+	sig := p.GetSignature()
+	if len(sig) != 65 || p.GetPeerIdx() < 0 || p.GetPeerIdx() >= int64(n) {
+		return false
+	}
+	c, _ := proto.Clone(p).(*pbv1.QBFTMsg)
+	c.Signature = nil
+	digest, err := hashProto(c)
+	if err != nil {
+		return false
+	}
+	v := sig[64]
+	if v >= 27 {
+		v -= 27
+	}
+	if v > 1 {
+		return false
+	}
+	compact := append([]byte{27 + v}, sig[:64]...)
+	pub, _, err := ecdsa.RecoverCompact(compact, digest[:])
+	if err != nil {
+		return false
+	}
+	return pub.IsEqual(keysFor(n)[p.GetPeerIdx()].PubKey())
+}
+
+// authenticVariant reports whether a differs from the valid message b only in the encoding of
+// signatures and/or by lacking whole justifications or values.
+func authenticVariant(a, b *pbv1.QBFTConsensusMsg, n int) bool {
+	if a.GetMsg() == nil || signedContent(a.GetMsg()) != signedContent(b.GetMsg()) || !validSigIndependent(a.GetMsg(), n) {
+		return false
+	}
+	used := make([]bool, len(b.GetJustification()))
+	for _, j := range a.GetJustification() {
+		if j == nil {
+			return false
+		}
+		found := false
+		for i, o := range b.GetJustification() {
+			if !used[i] && signedContent(j) == signedContent(o) {
+				used[i], found = true, true
+				break
+			}
+		}
+		if !found || !validSigIndependent(j, n) {
+			return false
+		}
+	}
+	// the attached values must be exactly the valid message's (a missing referenced value is an alteration)
+	if len(a.GetValues()) != len(b.GetValues()) {
+		return false
 	}
 	usedV := make([]bool, len(b.GetValues()))
 	for _, v := range a.GetValues() {
